@@ -38,7 +38,7 @@ Record bstate := mkB {
   b_cols : list (key * col); b_tr : list (key * transfer); b_named : list con; b_pk : list key;
   b_idx : list index; b_newidx : list index; b_order : list (key * key); b_existing : list key }.
 
-Inductive berr := EKeyError | EValueError | ECircular | EDuplicateColumn | EOperationalB | EFuelB | EOtherB.
+Inductive berr := EKeyError | EValueError | ECircular | EDuplicateColumn | EOperationalB | ECommandB | EFuelB | EOtherB.
 Inductive bres (A:Type) := BOk (a:A) | BErr (e:berr).
 Arguments BOk {A} a. Arguments BErr {A} e.
 
@@ -272,6 +272,49 @@ Section Finish.
     | BOk s => finish s
     end.
 End Finish.
+
+(* ------------------------------------------------------------------ recreate='auto' *)
+(* SQLiteImpl.requires_recreate_in_batch: anything but add_column (with a plain default) / create_index / drop_index *)
+Definition needs_recreate (o:batch_op) : bool :=
+  match o with OAddColumn _ _ _ _ | OCreateIndex _ | ODropIndex _ => false | _ => true end.
+Definition requires_recreate (ops:list batch_op) : bool := existsb needs_recreate ops.
+(* BatchOperationsImpl.add_column: insert_before/insert_after while the operations recorded SO FAR would not recreate
+   the table -> CommandError, raised when the operation is recorded (nothing has been executed yet) *)
+Fixpoint command_error (always:bool) (seen ops:list batch_op) : bool :=
+  match ops with
+  | [] => false
+  | o :: r =>
+      (match o with
+       | OAddColumn _ _ b a => (is_some b || is_some a) && negb (always || requires_recreate seen)
+       | _ => false end) || command_error always (seen ++ [o]) r
+  end.
+(* the ALTER path of BatchOperationsImpl.flush: impl.add_column / create_index / drop_index one by one; the failures are
+   the database's (duplicate column, NOT NULL column without default, index exists / missing, unknown column) *)
+Definition direct_op (o:batch_op) (T:tbl) : bres tbl :=
+  match o with
+  | OAddColumn k c _ _ =>
+      if is_some (aget k (tb_cols T)) || mem_name (c_name c) (map (fun p => c_name (snd p)) (tb_cols T)) then BErr EOperationalB
+      else if negb (c_nullable c) && negb (is_some (c_default c)) then BErr EOperationalB
+      else BOk (mkTbl (tb_cols T ++ [(k, c)]) (tb_pk T) (tb_cons T) (tb_idx T))
+  | OCreateIndex x =>
+      if is_some (idx_get (x_name x) (tb_idx T)) || negb (sub_names (x_cols x) (akeys (tb_cols T))) then BErr EOperationalB
+      else BOk (mkTbl (tb_cols T) (tb_pk T) (tb_cons T) (tb_idx T ++ [x]))
+  | ODropIndex n =>
+      if is_some (idx_get n (tb_idx T)) then BOk (mkTbl (tb_cols T) (tb_pk T) (tb_cons T) (idx_del n (tb_idx T)))
+      else BErr EOperationalB
+  | _ => BErr EOtherB
+  end.
+Fixpoint direct_ops (ops:list batch_op) (T:tbl) : bres tbl :=
+  match ops with
+  | [] => BOk T
+  | o :: r => match direct_op o T with BOk T' => direct_ops r T' | BErr e => BErr e end
+  end.
+Definition desc_of_tbl (T:tbl) : ndesc :=
+  let rn := fun k => match aget k (tb_cols T) with Some c => c_name c | None => k end in
+  mkDesc (map snd (tb_cols T)) (map rn (tb_pk T))
+         (map (fun c => mkCon (k_name c) (k_kind c) (map rn (k_cols c))) (tb_cons T))
+         (map (fun x => mkIndex (x_name x) (map rn (x_cols x)) (x_unique x)) (tb_idx T)).
+Definition identity_map (T:tbl) : list (name * key * list ty) := map (fun p => (c_name (snd p), fst p, [])) (tb_cols T).
 
 (* ------------------------------------------------------------------ rows *)
 (* a row of the old table: one value per original column, in column order.  `cast` is SQLite's CAST (an oracle).
